@@ -14,7 +14,7 @@ from . import common
 ID = "C05"
 NEEDS_MODEL = True
 LEVEL = "exploration"
-N = {"quick": 320, "thorough": 6000}
+N = {"quick": 480, "thorough": 6000}
 
 
 def renumber(text):
@@ -29,7 +29,7 @@ def renumber(text):
 
 
 def classify(spec, problems):
-    return kf.kf1_take_in_sum(spec, problems) or kf.classify_name_error(spec, problems)
+    return kf.classify_plain(spec, problems)
 
 
 def run_one(st, spec, rnd):
